@@ -136,9 +136,11 @@ theorem handlePeerMessage_no_panic (m : M) (k : Nat) (msg : Msg)
       | rfl
       | (simp; done)
 
-/-- `handlePieceWriteDone`: nil bitfield, "already have the piece", and the completion check. -/
+/-- `handlePieceWriteDone`: nil bitfield, "already have the piece", and the completion check — only for a result
+that is still current (a stale one is ignored: fix C04-F9). -/
 theorem handlePieceWriteDone_no_panic (m : M) (w : WriteJob) (e : Bool)
-    (hbit : w.good = true → e = false → ∃ b, m.1.bf = some b ∧ b.getD w.piece false = false)
+    (hbit : w.good = true → e = false → w.gen = m.1.gen → m.1.loaded = true →
+      ∃ b, m.1.bf = some b ∧ b.getD w.piece false = false)
     (hcc : m.1.completeCClosed = true → m.1.completed = true) :
     (handlePieceWriteDone m w e).1.panicked = m.1.panicked := by
   rw [handlePieceWriteDone_eq]
@@ -147,40 +149,45 @@ theorem handlePieceWriteDone_no_panic (m : M) (w : WriteJob) (e : Bool)
   · simp
   · next hg =>
     split
-    · simp only [onSt_fst]; rw [stop_panicked]; simp
-    · next he =>
-      obtain ⟨b, hb, hbit'⟩ := hbit (by simpa using hg) (by simpa using he)
-      simp only [List.getD_eq_getElem?_getD] at hbit'
-      have hb' : (pwdDone (pwdReset m w) w).1.bf = some b := by simpa using hb
-      rw [hb']
-      dsimp only
-      unfold pwdOk
-      -- set the bit (no crash: the piece was not held), close duplicates, send haves, check completion
-      have h1 : (pwdSet (pwdDone (pwdReset m w) w) w b).1.panicked = m.1.panicked := by
-        unfold pwdSet
-        simp [hbit']
-      have h1bf : (pwdSet (pwdDone (pwdReset m w) w) w b).1.bf = some (setAt b w.piece true) := by
-        unfold pwdSet; simp [hbit']
-      generalize hX : pwdHaves (pwdOthers (pwdSet (pwdDone (pwdReset m w) w) w b) w) w = X
-      have hXp : X.1.panicked = m.1.panicked := by rw [← hX]; simpa using h1
-      have hXbf : X.1.bf.isSome = true := by rw [← hX]; simp [h1bf]
-      have hXcc : X.1.completeCClosed = true → X.1.completed = true := by
-        rw [← hX]; simpa using hcc
-      have hc := checkCompletion_no_panic X.1 (Or.inr hXbf) hXcc
-      unfold pwdFinish
-      dsimp only
-      have hbf2 : X.1.checkCompletion.1.bf.isSome = true := by simpa using hXbf
-      have hwb : X.1.checkCompletion.1.writeBitfield.panicked = X.1.checkCompletion.1.panicked := by
-        unfold St.writeBitfield
-        split
-        · rfl
-        · next hn =>
-          have : X.1.bf = none := by simpa using hn
-          simp [this] at hXbf
-      repeat' split
-      · simp only [onSt_fst]; rw [stop_panicked, hwb, hc, hXp]
-      · simp only [onSt_fst]; rw [hwb, hc, hXp]
-      · rw [hc, hXp]
+    · simp
+    · next hst =>
+      simp only [Bool.or_eq_true, ne_eq, decide_eq_true_eq, Bool.not_eq_true', not_or, Decidable.not_not,
+        Bool.not_eq_false] at hst
+      split
+      · simp only [onSt_fst]; rw [stop_panicked]; simp
+      · next he =>
+        obtain ⟨b, hb, hbit'⟩ := hbit (by simpa using hg) (by simpa using he) (by simpa using hst.1) (by simpa using hst.2)
+        simp only [List.getD_eq_getElem?_getD] at hbit'
+        have hb' : (pwdDone (pwdReset m w) w).1.bf = some b := by simpa using hb
+        rw [hb']
+        dsimp only
+        unfold pwdOk
+        -- set the bit (no crash: the piece was not held), close duplicates, send haves, check completion
+        have h1 : (pwdSet (pwdDone (pwdReset m w) w) w b).1.panicked = m.1.panicked := by
+          unfold pwdSet
+          simp [hbit']
+        have h1bf : (pwdSet (pwdDone (pwdReset m w) w) w b).1.bf = some (setAt b w.piece true) := by
+          unfold pwdSet; simp [hbit']
+        generalize hX : pwdHaves (pwdOthers (pwdSet (pwdDone (pwdReset m w) w) w b) w) w = X
+        have hXp : X.1.panicked = m.1.panicked := by rw [← hX]; simpa using h1
+        have hXbf : X.1.bf.isSome = true := by rw [← hX]; simp [h1bf]
+        have hXcc : X.1.completeCClosed = true → X.1.completed = true := by
+          rw [← hX]; simpa using hcc
+        have hc := checkCompletion_no_panic X.1 (Or.inr hXbf) hXcc
+        unfold pwdFinish
+        dsimp only
+        have hbf2 : X.1.checkCompletion.1.bf.isSome = true := by simpa using hXbf
+        have hwb : X.1.checkCompletion.1.writeBitfield.panicked = X.1.checkCompletion.1.panicked := by
+          unfold St.writeBitfield
+          split
+          · rfl
+          · next hn =>
+            have : X.1.bf = none := by simpa using hn
+            simp [this] at hXbf
+        repeat' split
+        · simp only [onSt_fst]; rw [stop_panicked, hwb, hc, hXp]
+        · simp only [onSt_fst]; rw [hwb, hc, hXp]
+        · rw [hc, hXp]
 
 theorem hmdStart_no_panic (m : M) (h : m.1.allocator = false) : (hmdStart m).1.panicked = m.1.panicked := by
   unfold hmdStart
@@ -409,10 +416,10 @@ theorem handleAllocationDone_no_panic (m : M) (ex mi : Bool) (hcc : m.1.complete
 
 theorem allocatorRun_no_panic (m : M) (hcc : m.1.completeCClosed = m.1.completed) (hq : QueueOK m.1) :
     (allocatorRun m).1.panicked = m.1.panicked := by
-  unfold allocatorRun
-  dsimp only
+  rw [allocatorRun_eq]
   split
-  · simp only [onSt_fst]; rw [stop_panicked]
+  · unfold allocFail
+    simp only [onSt_fst]; rw [stop_panicked]; simp
   · rw [handleAllocationDone_no_panic]
     · simp
     · simpa using hcc
@@ -453,19 +460,20 @@ theorem handleVerificationDone_no_panic (m : M) (hcc : m.1.completeCClosed = m.1
 
 /-- `writerRun`: given that a good, current job finds a bitfield in which its piece is not yet set. -/
 theorem writerRun_no_panic (m : M) (w : WriteJob)
-    (hbit : w.good = true → ∃ b, m.1.bf = some b ∧ b.getD w.piece false = false)
+    (hbit : w.good = true → w.gen = m.1.gen → m.1.loaded = true → ∃ b, m.1.bf = some b ∧ b.getD w.piece false = false)
     (hcc : m.1.completeCClosed = true → m.1.completed = true) :
     (writerRun m w).1.panicked = m.1.panicked := by
   unfold writerRun
   dsimp only
   repeat' split
-  all_goals
-    rw [handlePieceWriteDone_no_panic]
-    all_goals first
-      | rfl
-      | (intro hg _; simpa using hbit hg)
-      | (intro hg _; simp only [Bool.and_eq_true] at hg; simpa using hbit hg.1)
-      | (intro hg h; cases h)
-      | (simpa using hcc)
+  all_goals first
+    | (simp; done)
+    | (rw [handlePieceWriteDone_no_panic]
+       all_goals first
+         | rfl
+         | (intro hg _ h1 h2; simpa using hbit hg (by simpa using h1) (by simpa using h2))
+         | (intro hg _ h1 h2; simp only [Bool.and_eq_true] at hg; simpa using hbit hg.1 (by simpa using h1) (by simpa using h2))
+         | (intro hg h; cases h)
+         | (simpa using hcc))
 
 end Rain.Loop
